@@ -47,7 +47,7 @@ class FuncInfo:
 
     @property
     def is_property(self) -> bool:
-        return any(d == "property" or d.endswith(".setter") for d in self.decorators)
+        return any(d == "property" or d.endswith(".setter") or d.split(".")[-1] == "cached_property" for d in self.decorators)
 
     @property
     def is_static(self) -> bool:
